@@ -364,6 +364,35 @@ def run(ctx):
                     row2 = [w.upper() if rnd.random() < 0.3 else w for w in row]
                     emit("patching", p, True, prefix, row2, observe("patching", text, p, True, prefix, row2, compiled=cic), "rbic")
 
+    # ---------------- several rules in one text: each keeps its own flags ((?i) on the first line says nothing about the lines below it)
+    if True:
+        prefix, vend = "undo", "huawei"
+        lits = [p for p in pats if p and p[0]["t"] == "lit" and p[0]["w"] != prefix]
+        for k in range(150 if quick else 3000):
+            trio, firsts = [], set()
+            for p in rnd.sample(lits, min(len(lits), 12)):
+                if p[0]["w"] not in firsts and len(trio) < 3:
+                    firsts.add(p[0]["w"])
+                    trio.append(p)
+            if len(trio) < 2:
+                continue
+            texts = [render_pat(p) for p in trio]
+            flagged = rnd.randrange(len(trio))
+            body = "\n".join(("(?i)" if i == flagged else "") + t for i, t in enumerate(texts)) + "\n"
+            try:
+                comp = list(compile_patching_text(body, vend)["local"].values())
+            except Exception as e:
+                ctx.reject("multi-%d" % k, "compiler refused a text of several rules: %r" % e, {"text": body}, None)
+                continue
+            if len(comp) != len(trio):
+                continue
+            for i, p in enumerate(trio):
+                for row in rnd.sample(rows, 6):
+                    for r2 in (row, [w.upper() for w in row]):
+                        obs = observe("patching", texts[i], p, i == flagged, prefix, r2, compiled=comp[i])
+                        if i == flagged:
+                            obs["hasrev"] = False
+                        emit("patching", p, i == flagged, prefix, r2, obs, "multi")
     # ---------------- flags: one row text compiled with and without case folding in the same process, in both orders
     # (the compilers are cached per process; (?i) / %ignore_case must be honoured whatever was compiled before)
     nfl = 60 if quick else 400
